@@ -981,6 +981,33 @@ pub fn c02(tier: Tier) -> ! {
             run.fail(k, &w, c);
         }
     }
+    // the disc-union oracle and the crate may share an algorithm (arc integration), so a subset of
+    // the trimers is also compared with a raster count, which shares nothing with either
+    let mut raster_checks = 0u64;
+    let stride = tier.pick(12, 6);
+    let n_raster = tier.pick(400, 900);
+    let rasters: Vec<&ShapeSpec> = shapes.iter().filter(|s| matches!(s, ShapeSpec::Trimer(..))).step_by(stride).collect();
+    let rres = par_map(&rasters, |_, spec| {
+        let body = spec.body();
+        if let (Body::Discs(d), TestShape::Mol(m)) = (&body, to_test_shape(spec)) {
+            let raster = disc_union_area_raster(d, n_raster);
+            let got = m.area();
+            let known = trimer_formula_invalid(&body);
+            // raster error: boundary cells, about perimeter * cell size
+            let tol = 12. * raster.max(1.) / n_raster as f64;
+            if !((got - raster).abs() <= tol) {
+                return Some((known, format!("{}: area() = {} but a {}x{} raster count gives {}", spec.label(), got, n_raster, n_raster, raster)));
+            }
+        }
+        None
+    });
+    for (i, r) in rres.into_iter().enumerate() {
+        raster_checks += 1;
+        if let Some((known, w)) = r {
+            run.fail(if known { Some("trimer-area-multiple-overlap") } else { None }, &w, json!({"shape": rasters[i].label()}));
+        }
+    }
+    run.set("raster_cross_checks", raster_checks);
     // two states of the same shape are ranked by their real density (the order the CLI's max() uses)
     let mut order_checks = 0u64;
     for spec in [ShapeSpec::Polygon(4), ShapeSpec::Polygon(3), ShapeSpec::Circle, ShapeSpec::Trimer(0.637556, 120., 1.)].iter() {
